@@ -193,7 +193,7 @@ def run(ctx, prog, res):
             if not (st["k"] == "assign" and st["dst"]["l"] == 0 and not st["dst"]["p"] and st["rv"]["k"] == "use" and st["rv"]["op"].get("k") == "const" and st["rv"]["op"].get("bool") is False):
                 continue
             n_false += 1
-            justified = False
+            justified = any(cf.dominates(sb, bb) for sb, t_ in cf.calls() if flow.call_name(t_).endswith("<impl [T]>::binary_search"))  # the search already ran
             for sbb, _ in cf.live_blocks():
                 d = flow.bool_switch_of(cf, sbb)
                 if not d or not (cf.dominates(d["true_bb"], bb) or cf.dominates(d["false_bb"], bb)):
